@@ -241,6 +241,9 @@ func newSimCallback(plan CbPlan, yield bool) *simCallback {
 }
 
 func visitOf(wn *gtree.WalkerNode) Visit {
+	if wn == nil {
+		return Visit{Name: "<nil WalkerNode>", Row: "<nil WalkerNode>"}
+	}
 	return Visit{Name: wn.Name(), Branch: wn.Branch(), Row: wn.Row(), Level: wn.Level(), Path: wn.Path(), HasChild: wn.HasChild()}
 }
 
